@@ -117,7 +117,7 @@ ParseProp(s) ==
       kp == IF i = 0 THEN t ELSE TrimR(SubSeq(t, 1, i - 1))
       vp == IF i = 0 THEN <<>> ELSE TrimL(SubSeq(t, i + 1, Len(t)))
   IN [ok |-> kp # <<>> /\ All(TokenSym, kp) /\ All(OctetSym, vp),
-      p  |-> [k |-> KeyStr(kp), v |-> Decode(vp), hv |-> i # 0]]
+      p  |-> [k |-> KeyStr(kp), v |-> Decode(vp), hv |-> i # 0, tk |-> TRUE]]
 
 ParseMember(s) ==
   LET parts == Split(s, "semi")
@@ -128,7 +128,7 @@ ParseMember(s) ==
       ps == [j \in 1..(Len(parts) - 1) |-> ParseProp(parts[j + 1])]
   IN [ok |-> i # 0 /\ kp # <<>> /\ All(TokenSym, kp) /\ All(OctetSym, vp)
              /\ \A j \in 1..Len(ps) : ps[j].ok,
-      m  |-> [k |-> KeyStr(kp), v |-> Decode(vp), p |-> [j \in 1..Len(ps) |-> ps[j].p]]]
+      m  |-> [k |-> KeyStr(kp), v |-> Decode(vp), p |-> [j \in 1..Len(ps) |-> ps[j].p], tk |-> TRUE]]
 
 (* last one wins: keep a member iff no later member has its key *)
 LastWins(ms) == SelectSeq([i \in 1..Len(ms) |-> [i |-> i, m |-> ms[i]]],
@@ -203,8 +203,15 @@ PropArgOK(p) == p.ks # <<>> /\ KeyValidUtf8(p.ks) /\ ValidUtf8(p.v)
 MemberArgOK(a) == /\ a.ks # <<>> /\ KeyValidUtf8(a.ks) /\ ValidUtf8(a.v)
                   /\ \A i \in 1..Len(a.p) : PropArgOK(a.p[i])
 AllTokenKeys(a) == KeyIsToken(a.ks) /\ \A i \in 1..Len(a.p) : KeyIsToken(a.p[i].ks)
-ToMember(a) == [k |-> KeyStr(a.ks), v |-> Merge(a.v),
-                p |-> [i \in 1..Len(a.p) |-> [k |-> KeyStr(a.p[i].ks), v |-> Merge(a.p[i].v), hv |-> a.p[i].hv]]]
+(* tk = the key is a W3C token.  Members and properties whose key is valid UTF-8 but not a  *)
+(* token live in the baggage like any other (Members / Member / SetMember / DeleteMember)   *)
+(* but cannot travel in a header: serialising skips them (TokenPart).                       *)
+ToMember(a) == [k |-> KeyStr(a.ks), v |-> Merge(a.v), tk |-> KeyIsToken(a.ks),
+                p |-> [i \in 1..Len(a.p) |-> [k |-> KeyStr(a.p[i].ks), v |-> Merge(a.p[i].v), hv |-> a.p[i].hv,
+                                              tk |-> KeyIsToken(a.p[i].ks)]]]
+TokenPart(b) == LET tb == SelectSeq(b, LAMBDA m : m.tk) IN
+                [i \in 1..Len(tb) |-> [tb[i] EXCEPT !.p = SelectSeq(@, LAMBDA q : q.tk)]]
+WireLen(m) == IF m.tk THEN MemberLen([m EXCEPT !.p = SelectSeq(@, LAMBDA q : q.tk)]) ELSE 0
 
 (* New(members...): last one wins, then the three limits, measured on the serialised form. *)
 (* lens[i] = bytes of the serialisation of ms[i]                                            *)
